@@ -135,6 +135,20 @@ struct Case {
     fwd: bool,
     /// (longitude offset from the central meridian, latitude), degrees
     pts: Vec<[F; 2]>,
+    /// tuples outside of the domain (or NaN/inf) woven into the operand set of both instances; the
+    /// relations are asserted on the domain points only, whatever else is in the set and wherever
+    #[serde(default)]
+    intruders: Vec<Intruder>,
+}
+
+#[derive(Clone, Debug, Serialize, Deserialize)]
+struct Intruder {
+    /// 0 NaN tuple, 1 infinite, 2/3 outside of the projection's domain (see `intruder_geo`, `intruder_plane`)
+    kind: u8,
+    /// insertion position, scaled to the length of the set at that moment (0 = first)
+    pos: u16,
+    u: F,
+    v: F,
 }
 
 fn laea_aspect(lat_0: f64) -> &'static str {
@@ -472,6 +486,70 @@ fn xy_nan(c: &Coor4D) -> bool {
     c[0].is_nan() || c[1].is_nan()
 }
 
+/// geographic intruder as (longitude offset from the central meridian, latitude) in degrees
+fn intruder_geo(case: &Case, it: &Intruder) -> (f64, f64) {
+    let (u, v) = (it.u.0, it.v.0);
+    match it.kind % 4 {
+        0 => (f64::NAN, f64::NAN),
+        1 => (if u < 0.0 { f64::NEG_INFINITY } else { f64::INFINITY }, v * 60.0),
+        _ => match case.proj {
+            // near the equator, 84..96 degrees from the central meridian: refused by tmerc
+            Tmerc | Utm | Btmerc | Butm => (sgn(u) * (84.0 + u.abs() * 12.0), v * 3.0),
+            // the pole opposite to the apex
+            Lcc => (u * 170.0, -90.0 * sgn(case.bg.lat_1.map(|f| f.0).unwrap_or(1.0))),
+            Merc | Webmerc => (u * 180.0, 90.0 * sgn(v)),
+            // the antipode of the centre
+            Laea => (180.0, -case.bg.lat_0.map(|f| f.0).unwrap_or(0.0)),
+            Omerc => (sgn(u) * (100.0 + u.abs() * 70.0), case.bg.latc.map(|f| f.0).unwrap_or(0.0)),
+            Somerc => (sgn(u) * (100.0 + u.abs() * 70.0), case.bg.lat_0.map(|f| f.0).unwrap_or(0.0)),
+        },
+    }
+}
+
+/// plane intruder for the right hand instance (the left hand one gets its image under the relation)
+fn intruder_plane(p: &Plan, it: &Intruder) -> Coor4D {
+    let (u, v) = (it.u.0, it.v.0);
+    let r = p.a_r * p.k_r;
+    match it.kind % 4 {
+        0 => Coor4D([f64::NAN, f64::NAN, 0.0, 0.0]),
+        1 => Coor4D([if u < 0.0 { f64::NEG_INFINITY } else { f64::INFINITY }, v * r, 0.0, 0.0]),
+        // 3..4 radii east or west of the false origin: beyond the tmerc strip limit and the laea disc
+        2 => Coor4D([p.fo_r.0 + sgn(u) * (3.0 + u.abs()) * r, p.fo_r.1 + v * r, 0.0, 0.0]),
+        _ => Coor4D([1e30 * sgn(u), 1e30 * sgn(v), 0.0, 0.0]),
+    }
+}
+
+/// Apply `op` to `data` with the intruders woven in at their positions; on return `data` holds the
+/// results of its own tuples only (same order), the results of the intruders are returned.
+fn apply_woven(ctx: &Minimal, op: OpHandle, def: &str, fwd: bool, data: &mut Vec<Coor4D>, intr: &[(u16, Coor4D)]) -> Result<Vec<Coor4D>, Failure> {
+    if intr.is_empty() {
+        run_op(ctx, op, def, fwd, data)?;
+        return Ok(vec![]);
+    }
+    // tag: Ok(i) = own tuple i, Err(k) = intruder k
+    let mut tags: Vec<Result<usize, usize>> = (0..data.len()).map(Ok).collect();
+    for (k, (pos, _)) in intr.iter().enumerate() {
+        let at = pick(*pos, tags.len() + 1);
+        tags.insert(at, Err(k));
+    }
+    let mut woven: Vec<Coor4D> = tags
+        .iter()
+        .map(|t| match t {
+            Ok(i) => data[*i],
+            Err(k) => intr[*k].1,
+        })
+        .collect();
+    run_op(ctx, op, def, fwd, &mut woven)?;
+    let mut out = vec![Coor4D([f64::NAN; 4]); intr.len()];
+    for (t, c) in tags.iter().zip(&woven) {
+        match t {
+            Ok(i) => data[*i] = *c,
+            Err(k) => out[*k] = *c,
+        }
+    }
+    Ok(out)
+}
+
 fn check_rel(case: &Case, rec: &mut Rec, reg: Reg, strict: bool) -> CaseResult {
     if !strict && reg.excluded(case) {
         rec.count("excluded_known", 1);
@@ -520,9 +598,32 @@ fn check_rel(case: &Case, rec: &mut Rec, reg: Reg, strict: bool) -> CaseResult {
         geo_r.push(Coor4D([lam - p.shift, phi, 0.0, 0.0]));
     }
 
+    // tuples outside of the domain, woven into the operand sets of both instances (forward: geographic)
+    let note = if case.intruders.is_empty() {
+        String::new()
+    } else {
+        format!(
+            " [operand set: the {} domain points with {} other tuple(s) woven in (kind, position/65536): {:?}; forward ones (offset from central meridian, lat) deg: {:?}]",
+            case.pts.len(),
+            case.intruders.len(),
+            case.intruders.iter().map(|i| (i.kind % 4, i.pos)).collect::<Vec<_>>(),
+            case.intruders.iter().map(|i| intruder_geo(case, i)).collect::<Vec<_>>()
+        )
+    };
+    let (mut intr_geo_l, mut intr_geo_r) = (vec![], vec![]);
+    if case.fwd {
+        for it in &case.intruders {
+            let (d, lat) = intruder_geo(case, it);
+            let lam = (p.centre_l + d).to_radians();
+            intr_geo_l.push((it.pos, Coor4D([lam, lat.to_radians(), 0.0, 0.0])));
+            intr_geo_r.push((it.pos, Coor4D([lam - p.shift, lat.to_radians(), 0.0, 0.0])));
+        }
+    }
+    let mut intruder_out: Vec<(Coor4D, Coor4D)> = vec![];
+
     // right hand forward image (the reference in both directions)
     let mut plane_r = geo_r.clone();
-    run_op(&ctx, op_r, &p.def_r, true, &mut plane_r)?;
+    let xr = apply_woven(&ctx, op_r, &p.def_r, true, &mut plane_r, &intr_geo_r)?;
     let identity_plane = p.s == 1.0 && p.fo_l == p.fo_r;
     let map_plane = |c: &Coor4D| -> Coor4D {
         if identity_plane {
@@ -537,7 +638,8 @@ fn check_rel(case: &Case, rec: &mut Rec, reg: Reg, strict: bool) -> CaseResult {
 
     if case.fwd {
         let mut plane_l = geo_l.clone();
-        run_op(&ctx, op_l, &p.def_l, true, &mut plane_l)?;
+        let xl = apply_woven(&ctx, op_l, &p.def_l, true, &mut plane_l, &intr_geo_l)?;
+        intruder_out.extend(xl.into_iter().zip(xr));
         for i in 0..geo_l.len() {
             let exp = map_plane(&plane_r[i]);
             let got = plane_l[i];
@@ -549,7 +651,7 @@ fn check_rel(case: &Case, rec: &mut Rec, reg: Reg, strict: bool) -> CaseResult {
                 (false, false) => {}
                 _ => vfail!(
                     format!("nan-mismatch:{rel}@{label}/{dirs}"),
-                    "{rel}: '{}' at (lon, lat) = ({:?}, {:?}) rad gives {} but '{}' at ({:?}, {:?}) gives {}: one of them is NaN",
+                    "{rel}: '{}' at (lon, lat) = ({:?}, {:?}) rad gives {} but '{}' at ({:?}, {:?}) gives {}: one of them is NaN{note}",
                     p.def_l, geo_l[i][0], geo_l[i][1], fmt_c4(&got), p.def_r, geo_r[i][0], geo_r[i][1], fmt_c4(&plane_r[i])
                 ),
             }
@@ -567,7 +669,7 @@ fn check_rel(case: &Case, rec: &mut Rec, reg: Reg, strict: bool) -> CaseResult {
             vensure!(
                 err <= tol,
                 key,
-                "{rel} (forward): '{}' at (lon, lat) = ({:?}, {:?}) rad gives ({:?}, {:?}); expected ({:?}, {:?}) = {:?} + {:?} * ('{}' at ({:?}, {:?}) = ({:?}, {:?}) minus {:?}); difference {:.3e} m, tolerance {:.3e} m",
+                "{rel} (forward): '{}' at (lon, lat) = ({:?}, {:?}) rad gives ({:?}, {:?}); expected ({:?}, {:?}) = {:?} + {:?} * ('{}' at ({:?}, {:?}) = ({:?}, {:?}) minus {:?}); difference {:.3e} m, tolerance {:.3e} m{note}",
                 p.def_l, geo_l[i][0], geo_l[i][1], got[0], got[1], exp[0], exp[1], p.fo_l, p.s, p.def_r, geo_r[i][0], geo_r[i][1],
                 plane_r[i][0], plane_r[i][1], p.fo_r, err, tol
             );
@@ -589,10 +691,13 @@ fn check_rel(case: &Case, rec: &mut Rec, reg: Reg, strict: bool) -> CaseResult {
             in_l.push(map_plane(&plane_r[i]));
             idx.push(i);
         }
+        let intr_r: Vec<(u16, Coor4D)> = case.intruders.iter().map(|it| (it.pos, intruder_plane(&p, it))).collect();
+        let intr_l: Vec<(u16, Coor4D)> = intr_r.iter().map(|(pos, c)| (*pos, map_plane(c))).collect();
         let mut out_r = in_r.clone();
         let mut out_l = in_l.clone();
-        run_op(&ctx, op_r, &p.def_r, false, &mut out_r)?;
-        run_op(&ctx, op_l, &p.def_l, false, &mut out_l)?;
+        let xr = apply_woven(&ctx, op_r, &p.def_r, false, &mut out_r, &intr_r)?;
+        let xl = apply_woven(&ctx, op_l, &p.def_l, false, &mut out_l, &intr_l)?;
+        intruder_out.extend(xl.into_iter().zip(xr));
         // laea compresses radially (h = cos(c/2), 0.26 at the 150 degree limit of the domain); its inverse
         // obtains the authalic latitude as asin(sin xi), conditioned as sec(lat) (see below)
         let amp = if case.proj == Laea { 8.0 } else { 1.0 };
@@ -612,7 +717,7 @@ fn check_rel(case: &Case, rec: &mut Rec, reg: Reg, strict: bool) -> CaseResult {
                 }
                 _ => vfail!(
                     format!("nan-mismatch:{rel}@{label}/{dirs}"),
-                    "{rel}: '{}' inverse of {} gives {} but '{}' inverse of {} gives {}: one of them is NaN",
+                    "{rel}: '{}' inverse of {} gives {} but '{}' inverse of {} gives {}: one of them is NaN{note}",
                     p.def_l, fmt_c4(&in_l[j]), fmt_c4(&l), p.def_r, fmt_c4(&in_r[j]), fmt_c4(&r)
                 ),
             }
@@ -637,7 +742,7 @@ fn check_rel(case: &Case, rec: &mut Rec, reg: Reg, strict: bool) -> CaseResult {
             vensure!(
                 err <= tol,
                 key,
-                "{rel} (inverse): '{}' at (x, y) = ({:?}, {:?}) gives (lon, lat) = ({:?}, {:?}) rad; '{}' at ({:?}, {:?}) gives ({:?}, {:?}); expected lon_l = lon_r + {:?} (mod 2pi), lat_l = lat_r; difference {:.3e} m on the ground (dlon {:.3e} rad, dlat {:.3e} rad), tolerance {:.3e} m",
+                "{rel} (inverse): '{}' at (x, y) = ({:?}, {:?}) gives (lon, lat) = ({:?}, {:?}) rad; '{}' at ({:?}, {:?}) gives ({:?}, {:?}); expected lon_l = lon_r + {:?} (mod 2pi), lat_l = lat_r; difference {:.3e} m on the ground (dlon {:.3e} rad, dlat {:.3e} rad), tolerance {:.3e} m{note}",
                 p.def_l, in_l[j][0], in_l[j][1], l[0], l[1], p.def_r, in_r[j][0], in_r[j][1], r[0], r[1], p.shift, err, dlon, dlat, tol
             );
             let i = idx[j];
@@ -651,6 +756,21 @@ fn check_rel(case: &Case, rec: &mut Rec, reg: Reg, strict: bool) -> CaseResult {
     rec.class(&format!("{label}/{dirs}"));
     rec.count(&format!("ellps:{}", if case.ellps.contains(',') { "(a,rf)" } else { &case.ellps }), 1);
     rec.count("point_comparisons", case.pts.len() as u64);
+    if !case.intruders.is_empty() {
+        // nothing is asserted about the intruders themselves; their fate is recorded
+        rec.count("cases_with_intruders", 1);
+        if case.intruders.iter().any(|i| i.pos < 4096) {
+            rec.count("cases_with_intruder_in_first_position", 1);
+        }
+        for (l, r) in &intruder_out {
+            let k = match (xy_nan(l), xy_nan(r)) {
+                (true, true) => "intruder_refused_by_both",
+                (false, false) => "intruder_not_refused",
+                _ => "intruder_refused_by_one",
+            };
+            rec.count(k, 1);
+        }
+    }
     rec.count("exact_pole_points", case.pts.iter().filter(|p| p[1].0.abs() == 90.0).count() as u64);
     rec.count("exact_equator_points", case.pts.iter().filter(|p| p[1].0 == 0.0).count() as u64);
     rec.count("exact_central_meridian_points", case.pts.iter().filter(|p| p[0].0 == 0.0).count() as u64);
@@ -739,6 +859,7 @@ struct Raw {
     mix_fo: bool,
     fwd: bool,
     pts: Vec<(f64, f64, u8)>,
+    intr: Vec<(u8, u16, f64, f64)>,
 }
 
 fn unit() -> std::ops::Range<f64> {
@@ -754,8 +875,10 @@ fn raw(npts: usize) -> impl Strategy<Value = Raw> {
         ((0u8..8, unit()), (0u8..8, unit()), (0u8..8, unit(), unit()), (0u8..8, unit()), (0u8..8, unit())),
         (any::<bool>(), any::<bool>(), any::<bool>(), any::<bool>()),
         prop::collection::vec((unit(), unit(), 0u8..12), npts),
+        // 0..3 tuples from outside of the domain, at any position of the operand set (weighted to the front)
+        prop::collection::vec((0u8..4, prop_oneof![1 => Just(0u16), 3 => any::<u16>()], unit(), unit()), 0..4),
     )
-        .prop_map(|(e, b, g, o, r, f, pts)| Raw {
+        .prop_map(|(e, b, g, o, r, f, pts, intr)| Raw {
             proj: e.0,
             ell: e.1,
             ell_kind: e.2,
@@ -780,6 +903,7 @@ fn raw(npts: usize) -> impl Strategy<Value = Raw> {
             mix_fo: f.2,
             fwd: f.3,
             pts,
+            intr,
         })
 }
 
@@ -1186,7 +1310,8 @@ fn build(kind: Kind, r: &Raw, reg: Reg, force: Option<Force>) -> Case {
             }
         }
     }
-    Case { proj, ellps, a: F(a), rf: F(rf), bg, rel, fwd, pts }
+    let intruders = r.intr.iter().map(|(kind, pos, u, v)| Intruder { kind: *kind, pos: *pos, u: F(*u), v: F(*v) }).collect();
+    Case { proj, ellps, a: F(a), rf: F(rf), bg, rel, fwd, pts, intruders }
 }
 
 fn mix(mut x: u64) -> u64 {
@@ -1267,6 +1392,7 @@ fn probe(kind: Kind, force_proj: Proj, aspect: Option<u8>) -> bool {
         r.r_c = (1, 0.0);
         r.mask = 0;
         r.pts = vec![(0.3, 0.4, 9), (-0.2, 0.1, 9)];
+        r.intr = vec![];
         let c = build(kind, &r, Reg::default(), Some(Force { proj: force_proj, aspect, fwd }));
         let mut rec = Rec::default();
         check_rel(&c, &mut rec, Reg::default(), true).is_err()
@@ -1376,7 +1502,16 @@ fn main() {
                 let g = pts[15];
                 let list = boundary_points(proj, &bg, g[0].0, g[1].0);
                 place_boundaries(&mut pts[3..], &list, i / 7, 5);
-                Case { proj, ellps: e.0.clone(), a: F(e.1), rf: F(e.2), bg, rel: Rel::UtmZone { explicit_y0: zone % 2 == 0 }, fwd, pts }
+                // two cases in three carry a refused tuple (and every sixth a NaN tuple as well)
+                let mut intruders = vec![];
+                if i % 3 != 0 {
+                    let pos = if i % 3 == 1 { 0 } else { (mix(i as u64) & 0xffff) as u16 };
+                    intruders.push(Intruder { kind: 2, pos, u: F(h11(i as u64, 91)), v: F(h11(i as u64, 92)) });
+                }
+                if i % 6 == 0 {
+                    intruders.push(Intruder { kind: 0, pos: (mix(i as u64 ^ 77) & 0xffff) as u16, u: F(0.0), v: F(0.0) });
+                }
+                Case { proj, ellps: e.0.clone(), a: F(e.1), rf: F(e.2), bg, rel: Rel::UtmZone { explicit_y0: zone % 2 == 0 }, fwd, pts, intruders }
             },
             strict,
         );
